@@ -91,6 +91,12 @@
 //!        RenetClient status (connected | connecting | disc:<renet reason>) and
 //!        transport.disconnect_reason() (netcode reason or -)
 //!  t-cdisc <k> | t-ctdisc <k> | t-sdisc <id> | t-sdiscall   -> ok
+//!  t-stray <k> <i>            -> ok | err:noitem | err:noclient   item i of slot k's down queue is sent to the client's socket
+//!                                              from the relay's BACK socket (not the client's server address): discarded
+//!  t-setmax <n>               -> ok        NetcodeServerTransport::set_max_clients
+//!  t-acc                      -> acc max=<n> pub=<count>:<addresses() = front sockets 0|1> s<id>=<idle ns|->.. c<k>=<client_id>:<addr() ok>:<idle ns>..
+//!        (server transport: max_clients, addresses, time_since_last_received_packet per known id; client transports:
+//!         client_id, addr, time_since_last_received_packet)
 //!  note <word..>              -> ok   (markers for the oracles: lossless|benign|lossy|churn, heal-start,
 //!                                      healed, silent <k>, blackhole <k>, settled, ghost)
 //!
@@ -819,6 +825,49 @@ impl World for TWorld {
                 w.server.disconnect(id);
                 "ok".into()
             }
+            "t-stray" if t.len() == 3 => {
+                // a genuine datagram of the slot's down queue reaches the client's socket from the relay's BACK socket,
+                // i.e. from an address that is not the client's server address: it must be discarded
+                let k = num!(t[1], usize);
+                let i = num!(t[2], usize);
+                let s = match w.slots.get(k) {
+                    Some(s) => s,
+                    None => return BAD.into(),
+                };
+                let data = match s.q[DOWN].get(i) {
+                    Some(d) => d.clone(),
+                    None => return "err:noitem".into(),
+                };
+                match &s.client {
+                    None => "err:noclient".into(),
+                    Some(c) => {
+                        send_confirm(&s.back, c.addr, &c.probe, &data);
+                        "ok".into()
+                    }
+                }
+            }
+            "t-setmax" if t.len() == 2 => {
+                let n = num!(t[1], usize);
+                w.st.set_max_clients(n);
+                "ok".into()
+            }
+            "t-acc" if t.len() == 1 => {
+                let public = w.st.addresses();
+                let pub_ok = public == w.slots.iter().map(|s| s.front_addr).collect::<Vec<_>>();
+                let mut s = format!("acc max={} pub={}:{}", w.st.max_clients(), public.len(), pub_ok as u8);
+                let mut ids = w.ids.clone();
+                ids.sort();
+                for id in ids {
+                    s.push_str(&format!(" s{}={}", id, w.st.time_since_last_received_packet(id).map(|d| d.as_nanos().to_string()).unwrap_or("-".into())));
+                }
+                for (k, sl) in w.slots.iter().enumerate() {
+                    if let Some(c) = &sl.client {
+                        let addr_ok = c.tr.addr().map(|a| a == c.addr).unwrap_or(false);
+                        s.push_str(&format!(" c{}={}:{}:{}", k, c.tr.client_id(), addr_ok as u8, c.tr.time_since_last_received_packet().as_nanos()));
+                    }
+                }
+                s
+            }
             "t-sdiscall" if t.len() == 1 => {
                 w.st.disconnect_all(&mut w.server);
                 w.collect_events();
@@ -1006,6 +1055,7 @@ impl<'a> Drv<'a> {
         if let Some(s) = parse_state(&o) {
             self.st = s;
         }
+        self.x("t-acc");
     }
     fn refresh_q(&mut self) {
         let o = self.x("t-q");
@@ -1131,6 +1181,15 @@ impl<'a> Drv<'a> {
         self.fwd_lossless(UP);
         self.server_part(rng, dt, traffic);
         self.fwd_lossless(DOWN);
+        self.stray(rng);
+    }
+    /// now and then a datagram of the server also reaches a client from an address that is not its server's
+    fn stray(&mut self, rng: &mut Rng) {
+        if rng.chance(1, 5) {
+            let k = rng.below(self.nslots as u64) as usize;
+            let i = if rng.chance(1, 2) { self.tick.saturating_sub(1) } else { rng.below(self.tick + 2) };
+            self.x(&format!("t-stray {} {}", k, i));
+        }
     }
     fn relay(&mut self, rng: &mut Rng, dir: usize, f: &Faults) {
         let dn = if dir == UP { "up" } else { "down" };
@@ -1467,6 +1526,10 @@ fn script_churn(rng: &mut Rng, tier: Tier, ex: &mut dyn FnMut(&str) -> String) {
                 };
                 d.new_client(k, id);
             }
+        }
+        if rng.chance(1, 5) {
+            // the limit is lowered / raised while sessions exist (nobody is thrown out by that)
+            d.x(&format!("t-setmax {}", rng.pick(&[1usize, 1, 2, 3, 0])));
         }
         d.round_lossless(rng, dt, 1);
         d.reads(rng, false);
@@ -2281,6 +2344,81 @@ fn oracle_no_spurious_end(ops: &[String], outs: &[String]) -> Option<OracleFail>
     None
 }
 
+/// (g) the accessors of both transports agree with the trace: `max_clients` is what `t-new` / the last `t-setmax` said,
+/// `addresses` are the configured public addresses, every client transport reports the id its token was made for and
+/// the address of its own socket, and the server knows a time-since-last-packet exactly for the ids it holds an
+/// address for (the `nc` list of the `t-state` right before)
+fn oracle_accessors(ops: &[String], outs: &[String]) -> Option<OracleFail> {
+    let mut max: Option<u64> = None;
+    let mut nslots: u64 = 0;
+    let mut ids: BTreeMap<usize, u64> = BTreeMap::new();
+    for i in 0..ops.len().min(outs.len()) {
+        let t = toks(&ops[i]);
+        if t.is_empty() {
+            continue;
+        }
+        match t[0] {
+            "t-new" if t.len() >= 5 && outs[i] == "ok" => {
+                let n: usize = t[1].parse().unwrap_or(0);
+                max = t[2].parse().ok();
+                nslots = if t.len() == 6 { t[5].parse().unwrap_or(0) } else { n as u64 };
+                ids.clear();
+                for k in 0..n {
+                    ids.insert(k, 100 + k as u64);
+                }
+            }
+            "t-cnew" if t.len() == 3 && outs[i] == "ok" => {
+                if let (Ok(k), Ok(id)) = (t[1].parse::<usize>(), t[2].parse::<u64>()) {
+                    ids.insert(k, id);
+                }
+            }
+            "t-setmax" if t.len() == 2 && outs[i] == "ok" => {
+                max = t[1].parse::<u64>().ok().map(|n| n.min(1024));
+            }
+            "t-acc" => {
+                let o = &outs[i];
+                if !o.starts_with("acc ") {
+                    continue;
+                }
+                let held: Option<Vec<u64>> = if i > 0 && ops[i - 1] == "t-state" { parse_state(&outs[i - 1]).map(|s| s.nc) } else { None };
+                let mut seen: BTreeMap<usize, u64> = BTreeMap::new();
+                for f in o.split(' ').skip(1) {
+                    let Some((k, v)) = f.split_once('=') else { continue };
+                    if k == "max" {
+                        if v.parse::<u64>().ok() != max {
+                            return fail(i, "accessor:max-clients", format!("max_clients() = {}, the trace set it to {:?}", v, max));
+                        }
+                    } else if k == "pub" {
+                        if v != format!("{}:1", nslots) {
+                            return fail(i, "accessor:addresses", format!("addresses() = {} (count:matches), {} public addresses were configured", v, nslots));
+                        }
+                    } else if let Some(id) = k.strip_prefix('s').and_then(|x| x.parse::<u64>().ok()) {
+                        if let Some(h) = &held {
+                            if (v != "-") != h.contains(&id) {
+                                return fail(i, "accessor:time-since-last-packet", format!("time_since_last_received_packet({}) = {} but client_addr({}) is {}", id, v, id, if h.contains(&id) { "known" } else { "unknown" }));
+                            }
+                        }
+                    } else if let Some(slot) = k.strip_prefix('c').and_then(|x| x.parse::<usize>().ok()) {
+                        let p: Vec<&str> = v.split(':').collect();
+                        if p.len() != 3 {
+                            continue;
+                        }
+                        seen.insert(slot, p[0].parse().unwrap_or(u64::MAX));
+                        if p[1] != "1" {
+                            return fail(i, "accessor:client-addr", format!("the client transport of slot {} does not report the address of its own socket", slot));
+                        }
+                    }
+                }
+                if seen != ids {
+                    return fail(i, "accessor:client-id", format!("client transports report ids {:?}, their tokens were made for {:?}", seen, ids));
+                }
+            }
+            _ => {}
+        }
+    }
+    None
+}
+
 /// (f) nothing unwinds
 fn oracle_no_panic(ops: &[String], outs: &[String]) -> Option<OracleFail> {
     for (i, o) in outs.iter().enumerate() {
@@ -2300,5 +2438,6 @@ pub fn oracles() -> Vec<Oracle> {
         Oracle { prop: "C20", name: "tp-channels", engines: &["tp-"], check: oracle_channels },
         Oracle { prop: "C20", name: "tp-no-spurious-end", engines: &["tp-"], check: oracle_no_spurious_end },
         Oracle { prop: "C20", name: "tp-no-panic", engines: &["tp-"], check: oracle_no_panic },
+        Oracle { prop: "C20", name: "tp-accessors", engines: &["tp-"], check: oracle_accessors },
     ]
 }
